@@ -161,6 +161,10 @@ impl FramedReadProbe {
         self.0.read_buffer().len()
     }
 
+    pub fn buffer_bytes(&self) -> Vec<u8> {
+        self.0.read_buffer().to_vec()
+    }
+
     pub fn decoder_debug(&self) -> String {
         format!("{:?}", self.0.decoder())
     }
